@@ -6,3 +6,11 @@ for p in $(python3 -c "import json;print(' '.join(c['property_id'] for c in json
   while [ $(jobs -r | wc -l) -ge 2 ]; do sleep 1; done
 done
 wait
+# evidence audit: a committed evidence file must come from a clean run on the unchanged tree
+python3 - <<'PY'
+import json,glob
+for f in sorted(glob.glob('/verif/evidence/C*.json')):
+    e=json.load(open(f)); c=e['coverage']
+    if e.get('violations') or c.get('obligations')!=c.get('discharged'):
+        print('EVIDENCE-NOT-CLEAN', f)
+PY
